@@ -64,8 +64,15 @@ func TestC01(t *testing.T) {
 // any process while either one of the two regions is unreachable (that is what the multi-region envelope is for).
 func regionalKMS(t *testing.T, r *ev.Run) {
 	for _, version := range []int{1, 2} {
-		for _, cfgName := range []string{"default", "nocache", "nocache/dynamodb-v1", "nocache/dynamodb-v2", "default/sql"} {
+		for _, cfgName := range []string{"default", "nocache", "nocache/dynamodb-v1", "nocache/dynamodb-v2", "default/sql", "nocache/partial-envelope"} {
 			backend := "memory"
+			// partial envelope: while the system key is created the writers' own region can neither generate nor wrap a
+			// data key, so the envelope has an entry for the other region only; later readers that prefer the writers'
+			// region find no entry for it and use the other one
+			partial := strings.HasSuffix(cfgName, "/partial-envelope")
+			if partial {
+				cfgName = "nocache/memory"
+			}
 			if i := strings.IndexByte(cfgName, '/'); i > 0 {
 				// the plug-in's variable-length envelope stored through a real metastore plug-in
 				cfgName, backend = cfgName[:i], cfgName[i+1:]
@@ -95,6 +102,18 @@ func regionalKMS(t *testing.T, r *ev.Run) {
 					}
 					var items []item
 					fw := w.Factory(cfg, "svc", "prod")
+					if partial {
+						name += "/partial-envelope"
+						w.Cloud.Regions[world.AWSRegions[0]].FailGenerate = true
+						w.Cloud.Regions[world.AWSRegions[0]].FailEncrypt = true
+						s0, _ := fw.GetSession("warm")
+						if _, err := s0.Encrypt(ctx, []byte("creates the system key")); err != nil {
+							r.Violation("encrypt-failed-without-fault", fmt.Sprintf("%s: with one of two regions unable to wrap, encrypt failed: %v", name, err), nil)
+						}
+						s0.Close()
+						w.Cloud.Regions[world.AWSRegions[0]].FailGenerate = false
+						w.Cloud.Regions[world.AWSRegions[0]].FailEncrypt = false
+					}
 					for i, part := range []string{"P", "Q", "P"} {
 						s, _ := fw.GetSession(part)
 						pl := []byte(fmt.Sprintf("payload %d of %s", i, part))
@@ -119,6 +138,9 @@ func regionalKMS(t *testing.T, r *ev.Run) {
 						}
 					}
 					for _, down := range []string{"", world.AWSRegions[0], world.AWSRegions[1]} {
+						if partial && down == world.AWSRegions[1] {
+							continue // the only region the envelope has an entry for: nothing could unwrap it then
+						}
 						if down != "" {
 							w.Cloud.Regions[down].FailDecrypt = true
 						}
